@@ -269,6 +269,15 @@ class Gen:
         if self.mode == "acyclic" and self.owner is not None and ORDER.index(name) >= ORDER.index(self.owner):
             Counter.hit("recursive-macro-in-arg")
             return False
+        if self.mode == "rec" and self.owner is not None and "macro-cycle-through-invocation" in self.known:
+            # a macro cycle that passes through a function-like invocation is a known-finding class of its own:
+            # recursion stays among object-like macros, function-like bodies follow the acyclic order
+            if self.owner in OBJ and name not in OBJ:
+                Counter.hit("macro-cycle-through-invocation")
+                return False
+            if self.owner not in OBJ and ORDER.index(name) >= ORDER.index(self.owner):
+                Counter.hit("macro-cycle-through-invocation")
+                return False
         return True
 
     def element(self, depth, params, variadic, in_text, active):
@@ -574,17 +583,13 @@ class C13(v_hyp.Spec):
         return cls, bool(NT_CLASSES & set(cls))
 
     def reduce(self, item, fails):
-        """line-based delta debugging, then token-based on each remaining line"""
+        """line-based delta debugging (whole lines only, so every remaining line is still in the grammar)"""
         lines = item["src"].split("\n")
         if lines and lines[-1] == "":
             lines.pop()
         mk = lambda ls: {"src": "\n".join(ls) + "\n", "cls": item.get("cls", [])}
         lines = v_hyp.ddmin(lines, lambda ls: fails(mk(ls)), budget=150)
-        for k in range(min(len(lines), 8)):
-            toks = lines[k].split(" ")
-            if len(toks) > 2:
-                keep = v_hyp.ddmin(toks, lambda ts: fails(mk(lines[:k] + [" ".join(ts)] + lines[k + 1:])), budget=30)
-                lines[k] = " ".join(keep)
+        # (no token-level pass: it would leave the grammar -- empty arguments, unbalanced parentheses)
         return mk(lines)
 
     def evaluate(self, ctx, items, shrinking=False):
